@@ -179,7 +179,11 @@ ReadUsable(c, s, t) ==
     [] OTHER             -> FALSE
 \* --trash-dir may be given several times to trash-list and trash-empty: "V1+R" stands for the custom directories of both
 TdRegions(td) == IF td = "V1+R" THEN {"V1", "R"} ELSE {td}
-ReadDirs(c, s, td) == IF td = "none" THEN {t \in TDirs : ReadUsable(c, s, t)} ELSE {TC(r) : r \in TdRegions(td)}
+\* "top:V1": --trash-dir names the top directory of the volume V1 itself - not a trash directory: there is nothing to read or
+\* purge there (in particular it does not stand for $topdir/.Trash/$uid, whose parent would go unchecked)
+ReadDirs(c, s, td) == IF td = "none" THEN {t \in TDirs : ReadUsable(c, s, t)}
+                      ELSE IF td = "top:V1" THEN {}
+                      ELSE {TC(r) : r \in TdRegions(td)}
 \* top directories that exist but must be skipped (trash-list reports them)
 Skipped(c, s) == {t \in s.tex : TKind(t) = "t1" /\ TReg(t) \in c.mounted /\ ~TopSecure(c, TReg(t))}
 
@@ -310,7 +314,7 @@ DoomedStrays(s, days, ts) ==
 DoomedJunk(s, days, ts) ==
   IF days = -1 THEN {j \in s.junk : j.t \in ts /\ j.kind = "nopath"} ELSE {}
 
-EmptyOptsSet == [days : {-1} \cup 0 .. 3, dry : BOOLEAN, consent : {"auto", "yes", "no"}, td : {"none", "V1+R"} \cup Regions]
+EmptyOptsSet == [days : {-1} \cup 0 .. 3, dry : BOOLEAN, consent : {"auto", "yes", "no"}, td : {"none", "V1+R", "top:V1"} \cup Regions]
 \* consent: "auto" = not interactive; "yes"/"no" = interactive with a reply that does / does not begin with y or Y
 
 EmptyApply(c, s, o) ==
